@@ -723,9 +723,6 @@ func reachableWithoutTokenEdge(fn *ssa.Function, target *ssa.BasicBlock, names m
 }
 
 func init() {
-	register(&Rule{ID: "P-PROJ-STOP", Props: []string{"C01", "C17", "C18"}, Floor: 8,
-		Doc: "every construct that starts a projection parses its right-hand side at the level the specification gives that construct: the array wildcard, slices, the object wildcard (prefix * and infix .*) all at the object-wildcard level, flatten at the flatten level, filters at the filter level; sibling sites of one construct agree",
-		Run: rulePProjStop})
 }
 
 func rulePProjStop(p *Program, r *Reporter) {
